@@ -550,7 +550,15 @@ func main() {
 		"not demanded (statement silent, observed verdict is followed and counted): a second server session within a minute of the very first one; a change exactly 60 s after the previous one; a new server session while old-session packets were accepted in the last minute",
 		"server side: the foreign-session packet is handed to the session's unpacker directly (the relay would route it elsewhere)",
 	}
-	filterPart(c, harness.Pick(c, 5, 6))
-	packetPart(c, harness.Pick(c, 15*time.Minute, 3*time.Hour))
+	only := os.Getenv("C04_ONLY") // debugging aid: "filter" or "packets"; empty in normal runs
+	if only != "" {
+		c.Cap("C04_ONLY=" + only + ": only that part was run")
+	}
+	if only == "" || only == "filter" {
+		filterPart(c, harness.Pick(c, 5, 6))
+	}
+	if only == "" || only == "packets" {
+		packetPart(c, harness.Pick(c, 15*time.Minute, 3*time.Hour))
+	}
 	c.Finish()
 }
